@@ -51,3 +51,6 @@ package ports
 //@   ensures res1.Action == "routed" ==> forall k int :: 0 <= k && k < len(res0) ==> member(res0[k], healthyEndpoints) && listedURL(old(res0[k].URLString), modelEndpoints)
 //@   ensures res1.Action == "rejected" ==> len(res0) == 0 && (res1.StatusCode == 404 || res1.StatusCode == 503)
 //@   ensures res1.Action == "routed" || res1.Action == "rejected" || res1.Action == "fallback"
+
+//@ interface StatsCollector.RecordRequest
+//@ interface StatsCollector.RecordModelRequest
